@@ -13,7 +13,7 @@ COLUMNS = {"i1": "Int", "i2": "Int", "r1": "Real", "s1": "Str", "s2": "Str", "b1
 INT_VALUES = [0, 1, -1, 2, -2, 3, -3, 7, 10, -7, 100]
 BIG_INTS = [2 ** 31 - 1, 2 ** 31, -2 ** 31 - 1, 2 ** 32 + 5, 10 ** 12 + 7, 2 ** 40 + 3]
 LONG_STRINGS = ["a" * 70, "ab" * 150 + "'" + "b" * 10, "x" * 255 + "%", "y" * 256, ("B_" * 40) + "\\" + "z" * 30]
-REAL_QUARTERS = list(range(-40, 41)) + [4938271, -4938271, 400000001]   # ... 1234567.75, 100000000.25: 9 significant digits
+REAL_QUARTERS = list(range(-40, 41)) + [4938271, -4938271, 400000001] * 3   # ... 1234567.75, 100000000.25: 9 significant digits
 STR_ALPHABET = ["a", "b", "A", "B", "0", " ", "'", "%", "_", "\\", '"', ";", "-", "☃"]
 PAYLOADS = ["' OR 1=1 --", "%'; DROP TABLE item; --", "\\'", "a%b", "a_b", "100%", "_", "%", "\\",
             "ab", "aB", "Ab", " a ", "a'b", "''", "--", "/*", "a\\%b", "\\_", "%41", "a%20b", "%27"]
@@ -259,14 +259,16 @@ def _pred(draw, depth, F):
             return draw(comparison(0, F))
         return ident("b1")
     c = draw(st.integers(0, 99))
-    if c == 2 and depth >= 1:
+    if c in (2, 3) and depth >= 1:
         # the same construct twice on the same subject with different contents (two in-lists on one column,
         # two LIKE tests on one column): whatever a backend names or caches per column must not collide
         col, ty = draw(st.sampled_from([("s1", "Str"), ("s2", "Str"), ("i1", "Int"), ("i2", "Int")]))
         like = [f for f in ("contains", "startswith", "endswith") if f in F.funcs]
 
+        both_lists = draw(st.booleans())
+
         def one_test():
-            if ty == "Str" and like and draw(st.booleans()):
+            if ty == "Str" and like and not both_lists and draw(st.booleans()):
                 return ("call", draw(st.sampled_from(like)), (), (ident(col), draw(str_lits(F, wild=F.like_wildcards))))
             n = draw(st.integers(1, 3))
             return ("cmp", "in", ident(col), ("list", tuple(draw(LIT[ty](F)) for _ in range(n))))
